@@ -1239,7 +1239,7 @@ def flatten(root: ast.Tree, class_name: ast.ComponentRef) -> ast.Class:
     :param class_name: The class that we want to create a flat model for
     :return: flat_class, a Class containing the flattened class
     """
-    orig_class = root.find_class(class_name, copy=False)
+    orig_class = root.find_class(class_name, copy=True)
 
     flat_class = flatten_class(orig_class)
 
